@@ -15,11 +15,19 @@ STUBS = r'''
 verus! {
 // ------------------------------------------------------------------ opaque configuration objects
 #[derive(Clone, Copy)]
-pub struct Poseidon2Config { pub dd: usize }
+pub struct Poseidon2Config { pub dd: usize, pub wext: usize, pub rext: usize }
 #[derive(Clone, Copy)]
-pub struct Poseidon1Config { pub dd: usize }
-impl Poseidon2Config { pub fn d(&self) -> (r: usize) ensures r == self.dd { self.dd } }
-impl Poseidon1Config { pub fn d(&self) -> (r: usize) ensures r == self.dd { self.dd } }
+pub struct Poseidon1Config { pub dd: usize, pub wext: usize, pub rext: usize }
+impl Poseidon2Config {
+    pub fn d(&self) -> (r: usize) ensures r == self.dd { self.dd }
+    pub fn width_ext(&self) -> (r: usize) ensures r == self.wext { self.wext }
+    pub fn rate_ext(&self) -> (r: usize) ensures r == self.rext { self.rext }
+}
+impl Poseidon1Config {
+    pub fn d(&self) -> (r: usize) ensures r == self.dd { self.dd }
+    pub fn width_ext(&self) -> (r: usize) ensures r == self.wext { self.wext }
+    pub fn rate_ext(&self) -> (r: usize) ensures r == self.rext { self.rext }
+}
 pub trait ChallengerPermConfig {
     spec fn sp_p2(&self) -> Option<Poseidon2Config>;
     spec fn sp_p1(&self) -> Option<Poseidon1Config>;
@@ -72,14 +80,17 @@ pub trait ExtX: FieldX {
 impl<F: Field> CircuitBuilder<F> {
     #[verifier::external_body]
     pub fn decompose_ext_to_base_coeffs<BF>(&mut self, x: ExprId) -> (r: Result<Vec<ExprId>, CircuitBuilderError>)
-        ensures final(self).extends(old(self)), r is Ok,
-                r matches Ok(v) ==> final(self).has_all(v@) && final(self).vals_of(v@) == coeffs_of(old(self).val(x))
+        ensures final(self).extends(old(self)), r is Ok, final(self).chain@ == old(self).chain@,
+                r matches Ok(v) ==> final(self).has_all(v@) && final(self).vals_of(v@) == coeffs_of(old(self).val(x)),
+                // taint: the coefficients are the unique base-field decomposition of a pinned element
+                r matches Ok(v) ==> (old(self).bound(x) ==> final(self).all_bound(v@))
     { unimplemented!() }
     #[verifier::external_body]
     pub fn recompose_base_coeffs_to_ext<BF>(&mut self, coeffs: &[ExprId]) -> (r: Result<ExprId, CircuitBuilderError>)
-        ensures final(self).extends(old(self)),
+        ensures final(self).extends(old(self)), final(self).chain@ == old(self).chain@,
                 r is Ok <==> coeffs@.len() == sp_dim::<F>(),
-                r matches Ok(t) ==> final(self).has(t) && final(self).val(t) == ext_of(old(self).vals_of(coeffs@))
+                r matches Ok(t) ==> final(self).has(t) && final(self).val(t) == ext_of(old(self).vals_of(coeffs@)),
+                r matches Ok(t) ==> (old(self).all_bound(coeffs@) ==> final(self).bound(t))
     { unimplemented!() }
     /// `canonical_width`: C12's proviso — the decomposition is the canonical one only if 2^n_bits <= P.
     /// It is a requirement for canonicity, not for safety; every call site must discharge it.
@@ -87,7 +98,8 @@ impl<F: Field> CircuitBuilder<F> {
     pub fn decompose_to_bits<BF>(&mut self, x: ExprId, n_bits: usize) -> (r: Result<Vec<ExprId>, CircuitBuilderError>)
         requires
             canonical_width::<BF>(n_bits as nat),
-        ensures final(self).extends(old(self)), r is Ok <==> n_bits <= sp_bf_bits::<BF>(),
+        ensures final(self).extends(old(self)), r is Ok <==> n_bits <= sp_bf_bits::<BF>(), final(self).chain@ == old(self).chain@,
+                r matches Ok(v) ==> (old(self).bound(x) ==> final(self).all_bound(v@)),
                 r matches Ok(v) ==> v@.len() == n_bits && final(self).has_all(v@) && final(self).vals_of(v@) == bits_of(old(self).val(x), n_bits as nat)
     { unimplemented!() }
 }
@@ -188,6 +200,29 @@ pub proof fn lemma_vals_of_extends<F: Field>(a: &CircuitBuilder<F>, b: &CircuitB
 '''
 
 
+def common(f, gen='<EF: ExtX>'):
+    f.rewrite_re('R11', r'::<BF, EF>', '', min_count=0)
+    f.rewrite_re('R11', r'\bEF::ZERO\b', 'EF::zero()')
+    f.rewrite_re('R11', r'\bEF::DIMENSION\b', 'EF::dimension()')
+    return f
+
+
+def rw_duplexing(d):
+    """logged rewrites that bring CircuitChallenger::duplexing into the Verus dialect (shared with unit `bind`)"""
+    d.rewrite('R9', 'debug_assert!(self.initialized, "Challenger must be initialized");', 'assert(self.initialized);')
+    d.rewrite('R9', 'debug_assert!(num_absorbed <= RATE, "Input buffer exceeds RATE");', 'assert(num_absorbed <= RATE);')
+    d.rewrite('R6', 'self.config.as_poseidon2().copied()', '(match self.config.as_poseidon2() { Some(c_) => Some(*c_), None => None })')
+    d.rewrite('R6', 'self.config.as_poseidon1().copied()', '(match self.config.as_poseidon1() { Some(c_) => Some(*c_), None => None })')
+    d.rewrite('R5', 'for (i, val) in self.input_buffer.drain(..).enumerate() { self.state[i] = val; }',
+              'for i in 0..self.input_buffer.len() { let val = self.input_buffer[i]; self.state[i] = val; } self.input_buffer.clear();')
+    d.rewrite('R6', 'p2_config.map_or_else(|| p1_config.is_some_and(|c| c.d() == 1), |c| c.d() == 1)',
+              '(match p2_config { Some(c) => c.d() == 1, None => match p1_config { Some(c) => c.d() == 1, None => false } })')
+    d.rewrite('R5', 'for slot in self.state.iter_mut().take(RATE).skip(num_absorbed) { *slot = zero; }',
+              'for j_ in num_absorbed..RATE { if j_ < self.state.len() { self.state[j_] = zero; } }')
+    d.rewrite('R11', 'EF::from_u8(num_absorbed as u8)', 'EF::from_u8(num_absorbed as u8)')
+    d.rewrite('R9', 'panic!("unsupported challenger permutation");', 'assert(false); // panic!: unreachable because a permutation family is configured')
+
+
 def build():
     u = Unit('chal', ['C05'])
     u.rlimit = 80
@@ -206,11 +241,6 @@ def build():
     IMPL = r'^impl<const WIDTH: usize, const RATE: usize, C: ChallengerPermConfig> CircuitChallenger<WIDTH, RATE, C>$'
     TIMPL = r'RecursiveChallenger<BF, EF> for CircuitChallenger<WIDTH, RATE, C>'
 
-    def common(f, gen='<EF: ExtX>'):
-        f.rewrite_re('R11', r'::<BF, EF>', '', min_count=0)
-        f.rewrite_re('R11', r'\bEF::ZERO\b', 'EF::zero()')
-        f.rewrite_re('R11', r'\bEF::DIMENSION\b', 'EF::dimension()')
-        return f
 
     # ---------------------------------------------------------------- new / init / clear
     n = u.extract(F, IMPL, 'new', 'CircuitChallenger::new')
@@ -261,18 +291,7 @@ def build():
     # ---------------------------------------------------------------- duplexing
     d = common(u.extract(F, IMPL, 'duplexing', 'CircuitChallenger::duplexing'))
     d.set_sig('R11', 'fn duplexing<EF: ExtX>(&mut self, circuit: &mut CircuitBuilder<EF>)')
-    d.rewrite('R9', 'debug_assert!(self.initialized, "Challenger must be initialized");', 'assert(self.initialized);')
-    d.rewrite('R9', 'debug_assert!(num_absorbed <= RATE, "Input buffer exceeds RATE");', 'assert(num_absorbed <= RATE);')
-    d.rewrite('R6', 'self.config.as_poseidon2().copied()', '(match self.config.as_poseidon2() { Some(c_) => Some(*c_), None => None })')
-    d.rewrite('R6', 'self.config.as_poseidon1().copied()', '(match self.config.as_poseidon1() { Some(c_) => Some(*c_), None => None })')
-    d.rewrite('R5', 'for (i, val) in self.input_buffer.drain(..).enumerate() { self.state[i] = val; }',
-              'for i in 0..self.input_buffer.len() { let val = self.input_buffer[i]; self.state[i] = val; } self.input_buffer.clear();')
-    d.rewrite('R6', 'p2_config.map_or_else(|| p1_config.is_some_and(|c| c.d() == 1), |c| c.d() == 1)',
-              '(match p2_config { Some(c) => c.d() == 1, None => match p1_config { Some(c) => c.d() == 1, None => false } })')
-    d.rewrite('R5', 'for slot in self.state.iter_mut().take(RATE).skip(num_absorbed) { *slot = zero; }',
-              'for j_ in num_absorbed..RATE { if j_ < self.state.len() { self.state[j_] = zero; } }')
-    d.rewrite('R11', 'EF::from_u8(num_absorbed as u8)', 'EF::from_u8(num_absorbed as u8)')
-    d.rewrite('R9', 'panic!("unsupported challenger permutation");', 'assert(false); // panic!: unreachable because a permutation family is configured')
+    rw_duplexing(d)
     d.requires('inv', 'old(self).inv_full(old(circuit))')
     d.ensures('refines_native_duplexing', 'final(self).abs(final(circuit)) == n_duplex(old(self).abs(old(circuit)), RATE as nat)')
     d.ensures('inv', 'final(self).inv(final(circuit)) && final(self).initialized && final(self).output_buffer@.len() == RATE')
